@@ -108,6 +108,7 @@ def parse(recv, tag):
         if m:
             r["expunge"].append(int(m.group(1)))
             r["order"].append("X")
+            r.setdefault("notes", []).append(("X", int(m.group(1))))
             continue
         m = re.match(r"^\* SEARCH(.*)$", line)
         if m:
@@ -116,6 +117,7 @@ def parse(recv, tag):
         m = re.match(r"^\* (\d+) EXISTS$", line)
         if m:
             r["exists"] = int(m.group(1))
+            r.setdefault("notes", []).append(("E", int(m.group(1))))
             continue
         m = re.match(r"^\* STATUS .*\(MESSAGES (\d+)\)", line)
         if m:
@@ -292,13 +294,114 @@ def build_probe_scenario(rng, name, k, probes, flags=None):
     return sc
 
 
+SESSION_CLASSES = [None, "check_swallows", "junk_move_count", "expunge_unannounced"]
+
+
+def build_session_scenario(rng, name, script=None, risky=False, k=None):
+    """Observer c and actor d on the same INBOX.  The observer's commands that can produce
+    EXISTS/EXPUNGE are recorded as steps (probe, command, probe); the actor (another
+    session) and the observer's own APPENDs change the mailbox in between."""
+    sc = Scenario(name)
+    k = rng.choice([0, 1, 2, 3, 4]) if k is None else k
+    for _ in range(k):
+        sc.append("")
+    sc.ops.append({"op": "open", "conn": "d"})
+    sc.ops.append(send("d", "b0", "LOGIN u@example.com pw"))
+    sc.ops.append(send("d", "b1", "SELECT INBOX"))
+    sel = sc.cmd("SELECT INBOX")
+    q = sc.probe()
+    steps = [("select", None, q, sel, q)]
+    nb = [2]
+
+    def actor(cmd):
+        nb[0] += 1
+        sc.ops.append(send("d", "b%d" % nb[0], cmd))
+
+    def actor_append(flags=""):
+        nb[0] += 1
+        sc.ops += append_ops("d", "b%d" % nb[0], flags)
+
+    def obs(kind, cmd, arg=None):
+        p = sc.probe()
+        e = sc.cmd(cmd)
+        q = sc.probe()
+        steps.append((kind, arg, p, e, q))
+
+    if script is None:
+        script = []
+        for _ in range(rng.randint(5, 11)):
+            r = rng.random()
+            if r < 0.22:
+                script.append(("xadd", "\\Deleted" if (risky and rng.random() < 0.3) else ""))
+            elif r < 0.34:
+                script.append(("xdel", rng.choice(["1", "*", "2"])))
+            elif r < 0.42:
+                script.append(("append", ""))
+            elif r < 0.58:
+                script.append(("noop",))
+            elif r < 0.74:
+                script.append(("flag", rng.choice(["1", "2", "*"]) if risky else "1"))
+                if rng.random() < 0.6:      # an addition the observer has not been told about yet
+                    script.append(rng.choice([("xadd", ""), ("append", "")]))
+                script.append(("expunge",) if rng.random() < 0.6 else ("uidexpunge", rng.choice(["1:*", "1", print_ast(gen_ast(rng, 6))])))
+            elif r < 0.84:
+                script.append(("uidexpunge", print_ast(gen_ast(rng, 6))))
+            elif risky and r < 0.92:
+                script.append(("check",))
+            elif risky:
+                script.append(("junk", rng.choice(["1", "1:2", "*"])))
+            else:
+                script.append(("noop",))
+        script.append(("noop",))
+    for it in script:
+        if it[0] == "xadd":
+            actor_append(it[1])
+        elif it[0] == "xdel":
+            actor("STORE %s +FLAGS (\\Deleted)" % it[1])
+            actor("EXPUNGE")
+        elif it[0] == "append":
+            sc.append("")
+        elif it[0] == "noop":
+            obs("noop", "NOOP")
+        elif it[0] == "check":
+            obs("check", "CHECK")
+        elif it[0] == "flag":
+            if not risky:
+                obs("noop", "NOOP")      # everything is announced before the observer addresses a message
+            sc.cmd("STORE %s +FLAGS (\\Deleted)" % it[1])
+        elif it[0] == "expunge":
+            obs("expunge", "EXPUNGE")
+        elif it[0] == "uidexpunge":
+            obs("uidexpunge", "UID EXPUNGE %s" % it[1], it[1])
+        elif it[0] == "junk":
+            obs("junk", "STORE %s +FLAGS (Junk)" % it[1], it[1])
+    sc.step("session", {"steps": steps, "script": script, "risky": risky}, sorted(set(i for s in steps for i in s[2:])))
+    return sc
+
+
+def coq_session(meta, P):
+    out = []
+    for (kind, arg, p, e, q) in meta["steps"]:
+        cmd = {"select": "CSelect", "noop": "CNoop", "check": "CCheck", "expunge": "CExpunge"}.get(kind)
+        if kind == "uidexpunge":
+            cmd = "(CUidExpunge %s)" % cstr(arg)
+        elif kind == "junk":
+            cmd = "(CJunk %s)" % cstr(arg)
+        notes = "[" + "; ".join(("NExists %d" if a == "E" else "NExpunge %d") % n for (a, n) in P[e].get("notes", [])) + "]"
+        out.append("{| o_cmd := %s; o_pre := %s; o_notes := %s; o_post := %s |}" % (
+            cmd, coq_pre(state_of(P[p])), notes, zl([u for (_, u, _) in state_of(P[q])])))
+    return "(case_session [%s])" % ";\n  ".join(out)
+
+
 def corpus_scenarios(rng):
     out = []
     for f in sorted(glob.glob(os.path.join(C.VERIF, "corpus", "C09", "*.json"))):
         d = json.load(open(f))
         w = d["witness"]
         name = "corpus:" + os.path.basename(f)
-        if w["kind"] == "noop":
+        if w["kind"] == "session":
+            out.append(build_session_scenario(rng, name, script=[tuple(x) for x in w["script"]], risky=True, k=w["k"]))
+        elif w["kind"] == "noop":
             out.append(build_noop_scenario(rng, name, w["k"], w["dels"]))
         elif w["kind"] == "junk":
             out.append(build_junk_scenario(rng, name, w["k"], [tuple(x) for x in w["ast"]]))
@@ -389,7 +492,7 @@ def case_of_step(kind, meta, R):
 
 def nontrivial(kind, meta):
     ast = meta.get("ast")
-    if kind in ("views", "expunge", "close", "noop", "uidexpunge", "junk"):
+    if kind in ("views", "expunge", "close", "noop", "uidexpunge", "junk", "session"):
         return True
     return ast is not None and (len(ast) > 1 or ast[0][0] == "range" or ast[0][1] == "*")
 
@@ -456,6 +559,10 @@ def run(chk):
     for j in range(4 if quick else 16):
         k = rng.randint(2, 6)
         scs.append(build_junk_scenario(rng, "junk%d" % j, k, gen_ast(rng, k)))
+    for j in range(14 if quick else 90):
+        scs.append(build_session_scenario(rng, "sess%d" % j, risky=False))
+    for j in range(5 if quick else 30):
+        scs.append(build_session_scenario(rng, "sessR%d" % j, risky=True))
     results = C.run_many([[{kk: v for kk, v in o.items() if not kk.startswith("_")} for o in sc.ops] for sc in scs], workers=12)
     traces = 0
     for sc, res in zip(scs, results):
@@ -476,7 +583,7 @@ def run(chk):
                 chk.violation("no tagged reply (timeout/EOF) in scenario %s during %s %r" % (sc.name, kind, meta),
                               {"suite": "numbering", "scenario": sc.name, "kind": kind, "meta": meta})
                 continue
-            term = case_of_step(kind, meta, R)
+            term = coq_session(meta, P) if kind == "session" else case_of_step(kind, meta, R)
             if term is None:
                 chk.broken_obligation("could not read the transcript of step %s in %s" % (kind, sc.name), {"meta": meta})
                 continue
@@ -490,7 +597,7 @@ def run(chk):
     CH = 1500
     for c0 in range(0, len(cases), CH):
         chunk = cases[c0:c0 + CH]
-        body = C.COQ_CASE_HEADER + "From Raven Require Import Base.GoStrZ Model.SeqSet Model.Expunge Spec.SeqSet Spec.SeqSetFindings Spec.C09Cases.\nLocal Open Scope Z_scope.\n"
+        body = C.COQ_CASE_HEADER + "From Raven Require Import Base.GoStrZ Model.SeqSet Model.Expunge Model.Session Spec.SeqSet Spec.SeqSetFindings Spec.SessionView Spec.C09Cases.\nLocal Open Scope Z_scope.\n"
         body += "Definition results : list Z := Eval vm_compute in [\n%s].\nPrint results.\n" % ";\n".join(t for (t, _, _, _) in chunk)
         rc, log = C.coq_eval_cases("C09", body, timeout=300)
         txt = C.parse_coq_list_out(log, "results") if rc == 0 else None
@@ -509,7 +616,16 @@ def run(chk):
     reported = {}
     mismatches = []
     for (term, suite, kind, payload), code in zip(cases, codes):
-        model_ok, spec_ok, print_ok, cls = bool(code & 1), bool(code & 2), bool(code & 4), CLASSES[code >> 3]
+        if kind == "session":
+            # bit0 model, bit1 count level, bit2 list level, bits3-4 bookkeeping class, bit5 generic NOOP expunge went wrong
+            model_ok, print_ok = bool(code & 1), True
+            count_ok, list_ok = bool(code & 2), bool(code & 4)
+            spec_ok = count_ok and list_ok
+            cls = SESSION_CLASSES[(code >> 3) & 3] if not count_ok else ("noop_notices" if (code & 32) else None)
+            if spec_ok:
+                cls = SESSION_CLASSES[(code >> 3) & 3] or ("noop_notices" if (code & 32) else None)
+        else:
+            model_ok, spec_ok, print_ok, cls = bool(code & 1), bool(code & 2), bool(code & 4), CLASSES[code >> 3]
         seen_kinds[kind] = seen_kinds.get(kind, 0) + 1
         pl = dict(payload, suite=suite, kind=kind, coq_case=term)
         if not print_ok:
@@ -524,6 +640,9 @@ def run(chk):
                 what += ": NOOP notices after another session expunged %r of %d" % (payload["meta"]["dels"], payload["meta"]["k"])
             elif kind in ("expunge", "close"):
                 what += ": %s on %r" % (kind.upper(), payload.get("state"))
+            elif kind == "session":
+                what += (": the observing client's %s after applying the untagged EXISTS/EXPUNGE responses differs from the server's at a NOOP boundary; script %r"
+                         % ("message count" if not (code & 2) else "message list", payload["meta"]["script"]))
             elif kind in ("seq", "uid"):
                 what += ": %s parser returned %r for set %r on a mailbox with UIDs %r" % (
                     "ParseSequenceSetWithDB" if kind == "seq" else "ParseUIDSequenceSetWithDB", payload["impl"], payload["set"], payload["uids"])
